@@ -634,4 +634,46 @@ example : (kill (select demo 0 none (some 0) .inf false).1 2).sets = [[0, 1, 3, 
 example : (setop demo .xor 0 (.list [4, 4, 7])).1.get 1 = [0, 1, 2, 3, 7] ∧
     (pop demo 0).toOption.map (·.2) = some 0 := by decide
 
+/-- **`map` by name calls what the attribute lookup on each *agent* yields** — `[getattr(a, name)(d) for a in members]`:
+    the name of a staticmethod is called with the arguments alone (no agent), the name of a classmethod with the agent's exact
+    class, the name of a callable stored on the instances calls that callable (not a class-level method of the same name),
+    raising `AttributeError` iff a member lacks the attribute it reads; and whatever kind of name or callable is mapped, a
+    successful `map` returns exactly one result per member. -/
+theorem C03_map_by_name_is_the_agents_own_attribute (st : Store) (s : Nat) (k : Nat) (d : Int) :
+    map st s (.stat d) = .ok ((st.get s).map fun _ => 2 * d) ∧
+    map st s (.cls d) = .ok ((st.get s).map fun i => ((st.agent i).ty : Int) + d) ∧
+    (∀ vs, (st.get s).mapM (fun i => (st.agent i).attr k) = some vs →
+      map st s (.own k d) = .ok (vs.map (3 * · + d))) ∧
+    ((st.get s).mapM (fun i => (st.agent i).attr k) = none → map st s (.own k d) = .error .attr) ∧
+    (∀ f vs, map st s f = .ok vs → vs.length = (st.get s).length) := by
+  refine ⟨rfl, rfl, fun vs h => by simp [map, h], fun h => by simp [map, h], fun f vs h => ?_⟩
+  cases f with
+  | dbl k' =>
+    simp only [map] at h
+    cases hm : (st.get s).mapM (fun i => (st.agent i).attr k') with
+    | none => simp [hm] at h
+    | some ws => simp [hm] at h; subst h; simp [mapM_some_length _ _ _ hm]
+  | plus k' d' =>
+    simp only [map] at h
+    cases hm : (st.get s).mapM (fun i => (st.agent i).attr k') with
+    | none => simp [hm] at h
+    | some ws => simp [hm] at h; subst h; simp [mapM_some_length _ _ _ hm]
+  | nosuch =>
+    simp only [map] at h
+    split at h
+    · rename_i he; simp at h; subst h; simp [he]
+    · simp at h
+  | stat d' => simp [map] at h; subst h; simp
+  | cls d' => simp [map] at h; subst h; simp
+  | own k' d' =>
+    simp only [map] at h
+    cases hm : (st.get s).mapM (fun i => (st.agent i).attr k') with
+    | none => simp [hm] at h
+    | some ws => simp [hm] at h; subst h; simp [mapM_some_length _ _ _ hm]
+
+/-- non-vacuity: a mixed set; the staticmethod ignores the agents, the classmethod sees their classes, the per-instance callable their x -/
+example : (map demo 0 (.stat 3)).toOption = some ((demo.get 0).map fun _ => 6) ∧ demo.get 0 ≠ [] ∧
+    (map demo 0 (.cls 1)).toOption = some ((demo.get 0).map fun i => ((demo.agent i).ty : Int) + 1) ∧
+    (map demo 0 (.own 0 2)).toOption.map (·.length) = some (demo.get 0).length := by decide
+
 end Mesa.ASet
